@@ -34,7 +34,7 @@ TIERS = {
     "quick": {"budget_s": 110, "exhaustive": True, "machine_runs": 64, "machine_steps": 12, "max_depth": 4},
     "thorough": {"budget_s": 1800, "exhaustive": True, "machine_runs": 1600, "machine_steps": 40, "max_depth": 5},
 }
-PARTS = ["product", "machine"]
+PARTS = ["product", "machine", "cli_part"]
 
 
 # ------------------------------------------------------------------ reference pruner
@@ -361,7 +361,52 @@ def machine(acc: Acc, tier, shard, nshards):
         acc.samples.append({"history_example": "validate / get_versioned_schema / get_expanded_schema calls with versions " + str(VERS)})
 
 
+def cli_case(text, version):
+    """the command line is one more way to supply a version: `mappyfile validate FILE --version V` succeeds exactly
+    when the API finds nothing to report at that version"""
+    import shutil
+    import tempfile
+
+    import mappyfile
+
+    from . import c20
+
+    work = tempfile.mkdtemp(prefix="mfv_c09cli_")
+    try:
+        with open(os.path.join(work, "v.map"), "w", encoding="utf-8") as f:
+            f.write(text)
+        exp = mappyfile.validate(mappyfile.open(os.path.join(work, "v.map"), include_position=True), version=version)
+        code, out, err = c20.run_cli(["validate", "v.map", "--version", str(version)], work)
+        case = {"cli_text": text, "version": version}
+        if (code == 0) != (not exp):
+            return [Discrepancy("cli_version", f"`mappyfile validate --version {version}` exits with {code} where the API reports {len(exp)} message(s): "
+                                f"{[m['message'] for m in exp][:3]}", case)]
+        return []
+    finally:
+        shutil.rmtree(work, ignore_errors=True)
+
+
+def cli_part(acc: Acc, tier, shard, nshards):
+    ents = [e for e in entries() if e[4] is not None and any(c[0][0] == "map" for c in chains(e[0], 3))]
+    step = 9 if tier == "quick" else 1
+    for i, (t, k, ai, meta, rep) in enumerate(ents):
+        if i % step or (i // step) % nshards != shard:
+            continue
+        chain = [c for c in chains(t, 3) if c[0][0] == "map"][0]
+        text = render.render(build_doc(chain, rep)).text
+        b = float(meta.get("minVersion", meta.get("maxVersion")))
+        for v in (round(b - 0.2, 1), b, round(b + 0.2, 1)):
+            acc.evaluations += 1
+            acc.nontrivial.add(env.fp(["cli", t, k, v]))
+            acc.cls("cli:validate_with_version")
+            for dd in cli_case(text, v):
+                if not any(x["bucket"] == dd.bucket for x in acc.violations):
+                    acc.violations.append({**dd.as_dict(), "search": "cli", "shard": shard, "round": 0, "seed": env.verif_seed(), "tier": tier})
+
+
 def replay(case):
+    if "cli_text" in case:
+        return cli_case(case["cli_text"], case["version"])
     if "doc" in case:
         return check_case(case["doc"], case["root"], case["version"], case, validator=env.Workers.get().Validator())
     if "history" in case:
